@@ -121,6 +121,10 @@ func cmdCheck(args []string) int {
 	os.RemoveAll(work)
 	os.MkdirAll(work, 0o755)
 	evidencePath := filepath.Join(vd, "evidence", *prop+".json")
+	if d := os.Getenv("VERIF_EVIDENCE_DIR"); d != "" {
+		// selftest / seeded-change runs against a deliberately broken tree must not overwrite the committed evidence
+		evidencePath = filepath.Join(d, *prop+".json")
+	}
 	os.MkdirAll(filepath.Dir(evidencePath), 0o755)
 
 	fail := func(msg string) int {
